@@ -9,6 +9,7 @@
 
 pub mod explore;
 pub mod h1;
+pub mod h2;
 pub mod hub;
 pub mod peer;
 pub mod scen;
@@ -74,6 +75,10 @@ pub struct ChoiceProfile {
     pub max_points_per_class: u32,
     /// deliver pending events in reverse order as an alternative
     pub event_order: bool,
+    /// a slow peer: writes of the subject on fds of this class move at most this
+    /// many bytes per event-loop turn (the rest would block until the next turn).
+    /// Not a choice point: a fixed trait of the scenario's environment.
+    pub pace_write: Option<(FdClass, usize)>,
 }
 
 #[derive(Clone, Copy, Debug, PartialEq, Eq, Hash, PartialOrd, Ord)]
@@ -159,6 +164,7 @@ pub struct Sim {
     owed: BTreeMap<c_int, u32>,
     points_used: HashMap<(FdClass, bool), u32>,
     syscalls_since_wait: u64,
+    paced_this_turn: usize,
     rng: u64,
     stop_forced: bool,
     pending_events: Vec<libc::epoll_event>,
@@ -181,6 +187,7 @@ impl Sim {
             owed: BTreeMap::new(),
             points_used: HashMap::new(),
             syscalls_since_wait: 0,
+            paced_this_turn: 0,
             rng: 0x9e37_79b9_7f4a_7c15,
             stop_forced: false,
             pending_events: vec![],
@@ -274,6 +281,7 @@ enum IoChoice {
 impl SimHooks for Sim {
     fn epoll_wait(&mut self, epfd: c_int, events: *mut libc::epoll_event, max: c_int, timeout_ms: c_int) -> c_int {
         self.stats.turns += 1;
+        self.paced_this_turn = 0;
         // time passes while the subject runs: without this a loop that waits
         // for `deadline < now` with a zero timeout would spin forever at the
         // exact virtual instant of the deadline
@@ -451,6 +459,17 @@ impl SimHooks for Sim {
         self.syscalls_since_wait += 1;
         self.stats.subject_writes += 1;
         let class = self.class_of(fd);
+        if let Some((c, per_turn)) = self.profile.pace_write {
+            if c == class {
+                let left = per_turn.saturating_sub(self.paced_this_turn);
+                if left == 0 {
+                    return IoDecision::WouldBlock;
+                }
+                let n = left.min(len);
+                self.paced_this_turn += n;
+                return IoDecision::Pass(n);
+            }
+        }
         let alts = self.fault_alternatives(class, true, len);
         if alts.is_empty() {
             return IoDecision::Pass(len);
